@@ -107,7 +107,7 @@ MOL_THOROUGH = list(MOLECULES)
 
 BATHS = {"none": None, "same": (30.0, 0.0), "diff": (30.0, 50.0)}   # reorg_i = a + b*i  (1/cm)
 CONDS = ["thermal", "tes_weak", "tes_strong", "impulsive"]
-CTXS = ["out", "inH", "inX"]
+CTXS = ["out", "inH", "inX", "inXH", "inHX"]   # the last two: nested, non-commuting contexts
 
 
 def _constraint(c):
@@ -258,10 +258,22 @@ def _request(ctx, fn, Hop, Xmat):
     elif ctx == "inH":
         with qr.eigenbasis_of(Hop):
             rho = fn()
-    else:
+    elif ctx == "inX":
         Xop = SelfAdjointOperator(data=Xmat.copy())
         with qr.eigenbasis_of(Xop):
             rho = fn()
+    elif ctx == "inXH":
+        Xop = SelfAdjointOperator(data=Xmat.copy())
+        with qr.eigenbasis_of(Xop):
+            with qr.eigenbasis_of(Hop):
+                rho = fn()
+    elif ctx == "inHX":
+        Xop = SelfAdjointOperator(data=Xmat.copy())
+        with qr.eigenbasis_of(Hop):
+            with qr.eigenbasis_of(Xop):
+                rho = fn()
+    else:
+        raise isolation.HarnessError(ctx)
     return numpy.array(rho.data, dtype=complex)
 
 
@@ -403,7 +415,7 @@ def _eval_aggregate(case):
             if numpy.max(numpy.abs(M[start:, :start])) > 1e-12 or \
                numpy.max(numpy.abs(M[:start, start:])) > 1e-12:
                 raise isolation.HarnessError("band structure lost in eigenbasis: %r" % (case,))
-        Breq = {"out": None, "inH": U, "inX": V}[ctx]
+        Breq = {"out": None, "inH": U, "inX": V, "inXH": U, "inHX": V}[ctx]
         tag = "%s/req-%s" % (cond, ctx)
 
         kw = {}
@@ -460,7 +472,7 @@ def _eval_aggregate(case):
             # reading (a): Boltzmann on the diagonal of H in the basis of the request;
             # reading (b): the canonical state.  Either satisfies the statement.
             ra = _boltzmann_in_basis(rho, H0, Breq, 0, T)
-            rb = ra if ctx == "inH" else _boltzmann_in_basis(rho, H0, U, 0, T)
+            rb = ra if ctx in ("inH", "inXH") else _boltzmann_in_basis(rho, H0, U, 0, T)
             best = ra if (ra["ok"] or not rb["ok"]) else rb
             acc.seen("structure", best["structure"])
             acc.seen("ratio_excess", best["ratio_excess"])
@@ -498,7 +510,7 @@ def _eval_aggregate(case):
         # classify: is it the state built from the diagonal of H in the request basis
         # and tagged with the request basis?  (only meaningful if that differs)
         sig = False
-        if ctx != ("inH" if cond == "tes_weak" else "out"):
+        if ctx not in (("inH", "inXH") if cond == "tes_weak" else ("out",)):
             if cond == "tes_weak":
                 # exciton populations placed on the diagonal of the request basis
                 pe = numpy.zeros(n)
@@ -534,7 +546,7 @@ def _eval_aggregate(case):
                     "%.3g x allowed)" % (T, r["ratio_abs"], r["ratio_excess"]))
     # same physical state inside / outside (class R), only where the request fixes the basis
     if cond in ("tes_weak", "tes_strong") and "out" in states and not ambiguous:
-        for ctx in ("inH", "inX"):
+        for ctx in ("inH", "inX", "inXH", "inHX"):
             if ctx not in states:
                 continue
             dev = float(numpy.max(numpy.abs(states[ctx] - states["out"])))
@@ -604,7 +616,7 @@ def _eval_molecule(case):
                         "T=%g populations are not Boltzmann (|dp|=%.3g, %.3g x allowed)"
                         % (T, r["ratio_abs"], r["ratio_excess"]))
     if "out" in states and not ambiguous:
-        for ctx in ("inH", "inX"):
+        for ctx in ("inH", "inX", "inXH", "inHX"):
             if ctx in states:
                 dev = float(numpy.max(numpy.abs(states[ctx] - states["out"])))
                 acc.seen("same_state", dev)
